@@ -1,4 +1,8 @@
 //! C15 — embeddable signing returns bytes of exactly the placeholder size (data-hash placeholder workflow).
+//! Both signing flows are first-class legs: the new placeholder()/sign_embeddable() pair (zero-pads the JUMBF) and the legacy
+//! data_hashed_placeholder()/sign_data_hashed_embeddable() pair (pads the DataHash through DataHash::pad_to_size).
+//! Besides the pure-class lists, an encoded-size sweep runs mixed-width lists whose exclusion array takes EVERY CBOR size
+//! from 33 to 300 bytes (the ten reserved dummy ranges are 161 bytes), because padding depends on that total.
 //! S-inp: format with composed-manifest support x number of exclusions 1..12 x offset magnitude class x
 //! length magnitude class x signer reserve {default, +5000} x definition {simple, rich}, all through the
 //! public flow placeholder -> set_data_hash_exclusions -> update_hash_from_stream -> sign_embeddable.
@@ -10,12 +14,14 @@
 //!    stream long enough for the list (nothing of this size is ever materialised). Only the size contract is judged.
 //!
 //! Mutants caught (tools/mutant_run.sh H <diff> C15 quick):
+//!   /verif/mutants/C15-pad-to-size-tracked-arithmetically.diff (independently seeded; first MISSED, which led to the legacy
+//!       leg and the encoded-size sweep) -> `shorter-than-placeholder flow=legacy enc=104 n=* by=-1`
 //!   /verif/mutants/C15-pad-one-short.diff           -> `shorter-than-placeholder ... by=-1`
 //!   /verif/mutants/C15-oversize-tolerance-32.diff   -> `longer-than-placeholder ... by=+N` (N <= 32)
 //! History: on the tree first examined sign_embeddable returned up to +118 bytes with no error for 123 of the 300 (n, offset
 //! class, length class) combinations (from n=6 with 9-byte integers, every combination from n=10); fixed by a9009da88/bf7cd2f6a.
 
-use c2pa::{Builder, BuilderIntent, Context, DigitalSourceType, HashRange, Reader, Signer, SigningAlg};
+use c2pa::{assertions::DataHash, Builder, BuilderIntent, Context, DigitalSourceType, HashRange, Reader, Signer, SigningAlg};
 use kit::{assets, defs::Def, par, sdk, Run};
 use serde_json::{json, Value};
 use std::io::{Cursor, Read, Seek, SeekFrom};
@@ -265,10 +271,30 @@ pub struct Case {
     pub rich: bool,
     pub alg: String,
     pub pure: bool,
+    /// false: placeholder() + set_data_hash_exclusions + update_hash_from_stream + sign_embeddable;
+    /// true: the legacy pair data_hashed_placeholder(reserve, format) + sign_data_hashed_embeddable(signer, &DataHash, format)
+    pub legacy: bool,
+    /// non-empty: a mixed-width list, one (CBOR width of start, CBOR width of length) pair per range, widths in {1,2,3,5,9};
+    /// empty: the pure-class list of (n, co, cl)
+    pub widths: Vec<(u8, u8)>,
 }
 impl Case {
+    pub fn proto() -> Case {
+        Case { real: false, fmt: "jpeg".into(), n: 1, co: 0, cl: 0, reserve_extra: 0, rich: false, alg: "ed25519".into(), pure: false, legacy: false, widths: vec![] }
+    }
+    /// CBOR size of the exclusion array of a mixed-width list: 1 + sum(1 + 6 + ws + 7 + wl)
+    pub fn enc(&self) -> usize {
+        1 + self.widths.iter().map(|(a, b)| 14 + *a as usize + *b as usize).sum::<usize>()
+    }
+    fn list_id(&self) -> String {
+        if self.widths.is_empty() { format!("n={:02} co={} cl={}", self.n, self.co, self.cl) } else { format!("enc={:03} n={:02}", self.enc(), self.widths.len()) }
+    }
+    fn flow(&self) -> &'static str {
+        if self.legacy { "legacy" } else { "new" }
+    }
     pub fn to_json(&self) -> Value {
-        json!({"real": self.real, "fmt": self.fmt, "n": self.n, "co": self.co, "cl": self.cl, "reserve_extra": self.reserve_extra, "rich": self.rich, "alg": self.alg, "pure": self.pure})
+        json!({"real": self.real, "fmt": self.fmt, "n": self.n, "co": self.co, "cl": self.cl, "reserve_extra": self.reserve_extra, "rich": self.rich, "alg": self.alg, "pure": self.pure, "legacy": self.legacy,
+               "widths": self.widths.iter().map(|(a, b)| json!([a, b])).collect::<Vec<_>>()})
     }
     pub fn from_json(v: &Value) -> Case {
         Case {
@@ -281,14 +307,108 @@ impl Case {
             rich: v["rich"].as_bool().unwrap_or(false),
             alg: v["alg"].as_str().unwrap_or("ed25519").into(),
             pure: v["pure"].as_bool().unwrap_or(false),
+            legacy: v["legacy"].as_bool().unwrap_or(false),
+            widths: v["widths"].as_array().map(|a| a.iter().map(|p| (p[0].as_u64().unwrap_or(1) as u8, p[1].as_u64().unwrap_or(1) as u8)).collect()).unwrap_or_default(),
         }
     }
     pub fn id(&self) -> String {
-        format!("{} {} n={} co={} cl={} r+{} {} {}{}", if self.real { "real" } else { "sized" }, self.fmt, self.n, self.co, self.cl, self.reserve_extra,
+        format!("{} {} {} {} r+{} {} {}{}", self.flow(), if self.real { "real" } else { "sized" }, self.fmt, self.list_id(), self.reserve_extra,
             if self.rich { "rich" } else { "simple" }, self.alg, if self.pure { " pure" } else { "" })
     }
     pub fn mime(&self) -> &'static str {
         FORMATS.iter().find(|f| f.0 == self.fmt).map(|f| f.1).unwrap_or("image/jpeg")
+    }
+}
+
+pub fn width_lo(w: u8) -> u64 {
+    match w { 1 => 0, 2 => 24, 3 => 256, 5 => 65_536, _ => 1 << 32 }
+}
+
+/// Concrete ranges for a mixed-width list: the j-th range whose start has width w starts at lo(w) + step*j (inside the
+/// class for up to 12 ranges), its length is lo(width) (at least 1) + j%3. Start widths are 1,2,3,5 (a 9-byte start needs the
+/// 4 GiB bridge and is covered by the pure-class lists); ranges may overlap (hashing treats exclusions as a union).
+pub fn width_list(widths: &[(u8, u8)]) -> Vec<(u64, u64)> {
+    let mut count = [0u64; 10];
+    let mut v: Vec<(u64, u64)> = widths.iter().map(|(ws, wl)| {
+        let j = count[*ws as usize];
+        count[*ws as usize] += 1;
+        let step = match ws { 1 => 2, 2 => 19, _ => 40 };
+        (width_lo(*ws) + step * j, width_lo(*wl).max(1) + j % 3)
+    }).collect();
+    v.sort();
+    v
+}
+
+/// CBOR width of an unsigned integer.
+pub fn cbor_width(x: u64) -> u8 {
+    if x < 24 { 1 } else if x < 256 { 2 } else if x < 65_536 { 3 } else if x < (1 << 32) { 5 } else { 9 }
+}
+
+/// Mixed-width lists: for every n in 1..=12 and every reachable sum S of per-range width sums (start width in {1,2,3,5},
+/// length width in {1,2,3,5,9}) one witness list. `per_size` = keep, for every distinct total encoded size, only the list
+/// with the fewest and the list with the most ranges.
+pub fn sweep_lists(per_size: bool) -> Vec<Vec<(u8, u8)>> {
+    // witness (ws, wl) for each per-range sum ws + wl
+    let pairs: [(usize, (u8, u8)); 11] = [(2, (1, 1)), (3, (2, 1)), (4, (1, 3)), (5, (2, 3)), (6, (3, 3)), (7, (5, 2)), (8, (3, 5)), (10, (5, 5)), (11, (2, 9)), (12, (3, 9)), (14, (5, 9))];
+    // reach[k][S] = per-range sum used last
+    let mut reach: Vec<std::collections::BTreeMap<usize, usize>> = vec![std::collections::BTreeMap::new(); 13];
+    reach[0].insert(0, 0);
+    for k in 1..=12 {
+        let prev: Vec<usize> = reach[k - 1].keys().copied().collect();
+        for s0 in prev {
+            // larger steps first so that witnesses mix widths instead of piling up the smallest one
+            for (p, _) in pairs.iter().rev() {
+                reach[k].entry(s0 + p).or_insert(*p);
+            }
+        }
+    }
+    let mut all: Vec<Vec<(u8, u8)>> = vec![];
+    for k in 1..=12usize {
+        for (s_total, _) in reach[k].iter() {
+            let mut list = vec![];
+            let (mut kk, mut ss) = (k, *s_total);
+            while kk > 0 {
+                let p = reach[kk][&ss];
+                list.push(pairs.iter().find(|x| x.0 == p).map(|x| x.1).unwrap_or((1, 1)));
+                ss -= p;
+                kk -= 1;
+            }
+            all.push(list);
+        }
+    }
+    if !per_size {
+        return all;
+    }
+    let mut by_size: std::collections::BTreeMap<usize, (Vec<(u8, u8)>, Vec<(u8, u8)>)> = std::collections::BTreeMap::new();
+    for l in all {
+        let t = 1 + l.iter().map(|(a, b)| 14 + *a as usize + *b as usize).sum::<usize>();
+        match by_size.get_mut(&t) {
+            None => { by_size.insert(t, (l.clone(), l)); }
+            Some((lo, hi)) => {
+                if l.len() < lo.len() { *lo = l.clone(); }
+                if l.len() > hi.len() { *hi = l; }
+            }
+        }
+    }
+    let mut out = vec![];
+    for (_, (lo, hi)) in by_size {
+        if lo.len() != hi.len() { out.push(hi); }
+        out.push(lo);
+    }
+    out
+}
+
+/// The concrete exclusion list of a sized case.
+pub fn ranges_of(c: &Case, head_end: u64) -> Vec<(u64, u64)> {
+    if !c.widths.is_empty() {
+        let v = width_list(&c.widths);
+        let got: usize = 1 + v.iter().map(|(s, l)| 14 + cbor_width(*s) as usize + cbor_width(*l) as usize).sum::<usize>();
+        if got != c.enc() {
+            kit::ev::machinery(format!("C15: width list {:?} materialised as {:?} encodes to {got}, not {}", c.widths, v, c.enc()));
+        }
+        v
+    } else {
+        exclusion_list(c.n, c.co, c.cl, head_end, c.pure).unwrap_or_else(|| kit::ev::machinery("C15: infeasible exclusion list was enumerated")).0
     }
 }
 
@@ -320,45 +440,54 @@ pub fn run_case(c: &Case) -> Result<Res, String> {
             Ok(b) => b,
             Err(e) => { res.err = Some(format!("builder: {e:?}")); return res; }
         };
-        let ph = match b.placeholder(mime) {
+        let legacy_signer = OwnedReserve { inner: sdk::fixture_signer(&c.alg), extra: c.reserve_extra };
+        let ph = match if c.legacy { b.data_hashed_placeholder(legacy_signer.reserve_size(), mime) } else { b.placeholder(mime) } {
             Ok(p) => p,
             Err(e) => { res.err = Some(format!("placeholder: {e:?}")); return res; }
         };
         res.placeholder = ph.len();
         let r: c2pa::Result<Vec<u8>> = (|| {
-            if c.real {
+            // the asset (real) or virtual stream (sized) that is hashed, and the exclusion list
+            let (asset, off) = if c.real {
                 let filler = filler_for(&c.fmt, c.co).unwrap_or(0);
                 let (asset, off) = embed(&c.fmt, filler, &ph).unwrap_or_else(|| kit::ev::machinery("C15: real case for a format without embedding"));
                 if class_of(off as u64) != c.co {
                     kit::ev::machinery(format!("C15: filler for {} puts the placeholder at {off}, not in class {}", c.fmt, c.co));
                 }
                 res.ranges = vec![(off as u64, ph.len() as u64)];
-                b.set_data_hash_exclusions(vec![HashRange::new(off as u64, ph.len() as u64)])?;
-                b.update_hash_from_stream(mime, &mut Cursor::new(&asset))?;
-                res.hashed_bytes = (asset.len() - ph.len()) as u64;
-                let signed = b.sign_embeddable(mime)?;
-                if signed.len() == ph.len() {
-                    let mut patched = asset.clone();
-                    patched[off..off + signed.len()].copy_from_slice(&signed);
-                    res.state = Some(match par::guard(|| Reader::from_context(sdk::ctx()).with_stream(mime, Cursor::new(&patched))) {
-                        Ok(Ok(rd)) => sdk::state_name(rd.validation_state()).to_string(),
-                        Ok(Err(e)) => format!("read-error {}", sdk::err_kind(&e)),
-                        Err(p) => format!("read-panic {p}"),
-                    });
-                }
-                Ok(signed)
+                (asset, off)
             } else {
                 let head = embed(&c.fmt, 0, &ph).map(|x| x.0).unwrap_or_else(|| vec![0x5Au8; 64]);
-                let (ranges, _bridged) = exclusion_list(c.n, c.co, c.cl, head.len() as u64 + 8, c.pure)
-                    .unwrap_or_else(|| kit::ev::machinery("C15: infeasible exclusion list was enumerated"));
-                let end = ranges.iter().map(|r| r.0 + r.1).max().unwrap_or(0).max(head.len() as u64) + 64;
-                res.ranges = ranges.clone();
-                b.set_data_hash_exclusions(ranges.iter().map(|r| HashRange::new(r.0, r.1)).collect())?;
-                let mut s = Sparse { head, len: end, pos: 0, served: 0 };
-                b.update_hash_from_stream(mime, &mut s)?;
-                res.hashed_bytes = s.served;
-                b.sign_embeddable(mime)
+                res.ranges = ranges_of(c, head.len() as u64 + 8);
+                (head, 0)
+            };
+            let end = res.ranges.iter().map(|r| r.0 + r.1).max().unwrap_or(0).max(asset.len() as u64) + if c.real { 0 } else { 64 };
+            let mut stream = Sparse { head: asset.clone(), len: end, pos: 0, served: 0 };
+            let excl: Vec<HashRange> = res.ranges.iter().map(|r| HashRange::new(r.0, r.1)).collect();
+            let signed = if c.legacy {
+                let mut dh = DataHash::new("jumbf manifest", "sha256");
+                for e in excl {
+                    dh.add_exclusion(e);
+                }
+                dh.gen_hash_from_stream(&mut stream)?;
+                res.hashed_bytes = stream.served;
+                b.sign_data_hashed_embeddable(&legacy_signer, &dh, mime)?
+            } else {
+                b.set_data_hash_exclusions(excl)?;
+                b.update_hash_from_stream(mime, &mut stream)?;
+                res.hashed_bytes = stream.served;
+                b.sign_embeddable(mime)?
+            };
+            if c.real && signed.len() == ph.len() {
+                let mut patched = asset.clone();
+                patched[off..off + signed.len()].copy_from_slice(&signed);
+                res.state = Some(match par::guard(|| Reader::from_context(sdk::ctx()).with_stream(mime, Cursor::new(&patched))) {
+                    Ok(Ok(rd)) => sdk::state_name(rd.validation_state()).to_string(),
+                    Ok(Err(e)) => format!("read-error {}", sdk::err_kind(&e)),
+                    Err(p) => format!("read-panic {p}"),
+                });
             }
+            Ok(signed)
         })();
         match r {
             Ok(s) => res.signed = Some(s.len()),
@@ -379,7 +508,7 @@ fn judge(run: &Run, c: &Case, r: Result<Res, String>) {
     match r {
         Err(p) => {
             run.outcome("panic");
-            violation(run, format!("panic {} fmt={}", if c.real { "real" } else { "sized" }, c.fmt), format!("{}: {p}", c.id()), c.to_json());
+            violation(run, format!("panic flow={} {} fmt={}", c.flow(), if c.real { "real" } else { "sized" }, c.fmt), format!("{}: {p}", c.id()), c.to_json());
         }
         Ok(res) => {
             if let Some(e) = &res.err {
@@ -387,7 +516,7 @@ fn judge(run: &Run, c: &Case, r: Result<Res, String>) {
                 // an error is an allowed outcome of the size contract; a real single-exclusion flow that errors is still
                 // reported because then no patched asset exists that could read back Valid
                 if c.real {
-                    violation(run, format!("real-flow-error fmt={} co={}", c.fmt, c.co), format!("{}: {e}", c.id()), c.to_json());
+                    violation(run, format!("real-flow-error flow={} fmt={} co={}", c.flow(), c.fmt, c.co), format!("{}: {e}", c.id()), c.to_json());
                 }
                 return;
             }
@@ -398,18 +527,18 @@ fn judge(run: &Run, c: &Case, r: Result<Res, String>) {
                 run.outcome("same-size");
             } else if d > 0 {
                 run.outcome("longer");
-                violation(run, format!("longer-than-placeholder n={:02} co={} cl={} by=+{d}", c.n, c.co, c.cl),
-                    format!("{}: placeholder {} bytes, sign_embeddable returned {} bytes (+{d}), no error; exclusions {:?}", c.id(), res.placeholder, signed, res.ranges), c.to_json());
+                violation(run, format!("longer-than-placeholder flow={} {} by=+{d}", c.flow(), c.list_id()),
+                    format!("{}: placeholder {} bytes, the signing call returned {} bytes (+{d}), no error; exclusions {:?}", c.id(), res.placeholder, signed, res.ranges), c.to_json());
             } else {
                 run.outcome("shorter");
-                violation(run, format!("shorter-than-placeholder n={:02} co={} cl={} by={d}", c.n, c.co, c.cl),
-                    format!("{}: placeholder {} bytes, sign_embeddable returned {} bytes ({d})", c.id(), res.placeholder, signed), c.to_json());
+                violation(run, format!("shorter-than-placeholder flow={} {} by={d}", c.flow(), c.list_id()),
+                    format!("{}: placeholder {} bytes, the signing call returned {} bytes ({d}), no error; exclusions {:?}", c.id(), res.placeholder, signed, res.ranges), c.to_json());
             }
             if c.real && d == 0 {
                 let st = res.state.clone().unwrap_or_default();
                 run.outcome(format!("patched:{}", st.split(' ').next().unwrap_or("")));
                 if st != "Valid" {
-                    violation(run, format!("patched-not-valid fmt={} co={} state={}", c.fmt, c.co, st.split(' ').take(2).collect::<Vec<_>>().join(" ")),
+                    violation(run, format!("patched-not-valid flow={} fmt={} co={} state={}", c.flow(), c.fmt, c.co, st.split(' ').take(2).collect::<Vec<_>>().join(" ")),
                         format!("{}: the asset with the signed bytes patched over the placeholder reads back {st}", c.id()), c.to_json());
                 }
             }
@@ -420,7 +549,7 @@ fn judge(run: &Run, c: &Case, r: Result<Res, String>) {
 pub fn cases(thorough: bool) -> (Vec<Case>, Vec<Case>, Vec<Case>) {
     // thorough: one algorithm per signature family (the COSE signature box is padded to the reserve, so the algorithm only
     // changes the reserve size)
-    let algs: Vec<&str> = if thorough { vec!["ed25519", "es384", "ps256"] } else { vec!["ed25519"] };
+    let algs: Vec<&str> = if thorough { vec!["ed25519", "ps256"] } else { vec!["ed25519"] };
     let mut real = vec![];
     let mut sized = vec![];
     let mut pure = vec![];
@@ -430,14 +559,14 @@ pub fn cases(thorough: bool) -> (Vec<Case>, Vec<Case>, Vec<Case>) {
                 for rich in [false, true] {
                     for co in 0..4 {
                         if filler_for(fmt, co).is_some() {
-                            real.push(Case { real: true, fmt: fmt.into(), n: 1, co, cl: 9, reserve_extra, rich, alg: alg.to_string(), pure: false });
+                            real.push(Case { real: true, fmt: fmt.into(), n: 1, co, cl: 9, reserve_extra, rich, alg: alg.to_string(), pure: false, legacy: false, widths: vec![] });
                         }
                     }
                     for n in 1..=12usize {
                         for co in 0..5 {
                             for cl in 0..5 {
                                 if exclusion_list(n, co, cl, 100, false).is_some() {
-                                    sized.push(Case { real: false, fmt: fmt.into(), n, co, cl, reserve_extra, rich, alg: alg.to_string(), pure: false });
+                                    sized.push(Case { real: false, fmt: fmt.into(), n, co, cl, reserve_extra, rich, alg: alg.to_string(), pure: false, legacy: false, widths: vec![] });
                                 }
                             }
                         }
@@ -451,7 +580,7 @@ pub fn cases(thorough: bool) -> (Vec<Case>, Vec<Case>, Vec<Case>) {
         for n in [1usize, 6, 12] {
             for cl in 0..5 {
                 for reserve_extra in [0usize] {
-                    pure.push(Case { real: false, fmt: "jpeg".into(), n, co: 4, cl, reserve_extra, rich: false, alg: "ed25519".into(), pure: true });
+                    pure.push(Case { real: false, fmt: "jpeg".into(), n, co: 4, cl, reserve_extra, rich: false, alg: "ed25519".into(), pure: true, legacy: false, widths: vec![] });
                 }
             }
         }
@@ -459,15 +588,42 @@ pub fn cases(thorough: bool) -> (Vec<Case>, Vec<Case>, Vec<Case>) {
     (real, sized, pure)
 }
 
+/// The legs added for the legacy API and for the encoded-size sweep: (legacy real, legacy pure-class sized, mixed-width sweep for both flows).
+pub fn extra_cases(thorough: bool) -> (Vec<Case>, Vec<Case>, Vec<Case>) {
+    let (real, sized, _) = cases(false);
+    let legacy_real: Vec<Case> = real.into_iter().map(|c| Case { legacy: true, ..c }).collect();
+    // quick: the pure-class lists through the legacy pair with the simple definition; thorough: both definitions
+    let legacy_sized: Vec<Case> = sized.into_iter().filter(|c| thorough || !c.rich).map(|c| Case { legacy: true, ..c }).collect();
+    let mut sweep = vec![];
+    for widths in sweep_lists(!thorough) {
+        for legacy in [false, true] {
+            for (fmt, _) in FORMATS {
+                for reserve_extra in [0usize, 5000] {
+                    for rich in [false, true] {
+                        // quick: simple definition; the +5000 reserve on jpeg only
+                        if !thorough && (rich || (reserve_extra != 0 && fmt != "jpeg")) { continue; }
+                        // thorough: the rich definition with the default reserve only
+                        if thorough && rich && reserve_extra != 0 { continue; }
+                        sweep.push(Case { fmt: fmt.into(), n: widths.len(), reserve_extra, rich, legacy, widths: widths.clone(), ..Case::proto() });
+                    }
+                }
+            }
+        }
+    }
+    (legacy_real, legacy_sized, sweep)
+}
+
 pub fn run(run: &Run, replay: Option<&Value>) {
-    run.rule("cases = (format with composed-manifest support and a DataHash binding: jpeg, png, gif, tiff, jxl, sidecar) x number of exclusions n in 1..12 x \
+    run.rule("TWO flows: new = placeholder -> set_data_hash_exclusions -> update_hash_from_stream -> sign_embeddable; legacy = data_hashed_placeholder(reserve) -> DataHash with the exclusions, hashed -> sign_data_hashed_embeddable. \
+              For both: pure-class lists, real patched single-exclusion cases, and an encoded-size sweep (mixed-width lists covering every CBOR size of the exclusion array from 33 bytes to beyond the ten reserved ranges, see `spaces`). \
+              cases = (format with composed-manifest support and a DataHash binding: jpeg, png, gif, tiff, jxl, sidecar) x number of exclusions n in 1..12 x \
               offset magnitude class {<24,<256,<2^16,<2^32,>=2^32} x length magnitude class (same 5) x signer reserve {default,+5000} x definition {simple, rich}; \
               every case runs placeholder -> set_data_hash_exclusions -> update_hash_from_stream -> sign_embeddable on the real Builder. \
               `real` cases (n=1) embed the placeholder in a kit asset at an offset of the class, patch the result in place and read it back; \
               `sized` cases hash a sparse virtual stream long enough for the list (for offsets >= 2^32 the first of the n ranges bridges [asset end, 2^32) so that 4 GiB need not be hashed; \
               the un-bridged lists are run in the thorough tier). Ranges overlap when a class is too narrow for n disjoint ranges. \
               non-trivial = distinct cases in which sign_embeddable returned bytes (so the size contract was actually judged).");
-    run.assume("signer: repository Ed25519 test credentials in the Context (thorough: ed25519, es384, ps256); intent Create; no dynamic assertions");
+    run.assume("signer: repository Ed25519 test credentials in the Context (thorough: ed25519, ps256); intent Create; no dynamic assertions");
     run.assume("offset class <24 is impossible for png/jxl (fixed headers are longer) and >=2^32 for any real asset; those real cases are not in the space");
     if let Some(c) = replay {
         let case = Case::from_json(c);
@@ -486,7 +642,7 @@ pub fn run(run: &Run, replay: Option<&Value>) {
     }
     // determinism of sizes
     {
-        let c = Case { real: true, fmt: "jpeg".into(), n: 1, co: 0, cl: 9, reserve_extra: 0, rich: false, alg: "ed25519".into(), pure: false };
+        let c = Case { real: true, fmt: "jpeg".into(), n: 1, co: 0, cl: 9, reserve_extra: 0, rich: false, alg: "ed25519".into(), pure: false, legacy: false, widths: vec![] };
         let a = run_case(&c).ok().map(|r| (r.placeholder, r.signed, r.state));
         let b = run_case(&c).ok().map(|r| (r.placeholder, r.signed, r.state));
         run.evals(2);
@@ -504,6 +660,28 @@ pub fn run(run: &Run, replay: Option<&Value>) {
     par::for_each(&real, |c| judge(run, c, run_case(c)));
     par::for_each(&sized, |c| judge(run, c, run_case(c)));
     par::for_each(&pure, |c| judge(run, c, run_case(c)));
+    let (lreal, lsized, sweep) = extra_cases(run.tier.is_thorough());
+    run.space("legacy flow (data_hashed_placeholder + sign_data_hashed_embeddable): real single-exclusion cases, format x feasible offset class x reserve x definition", lreal.len() as u64, true);
+    run.space("legacy flow: pure-class sized lists, format(6) x n(1..12) x offset class(5) x length class(5) x reserve(2) (quick: simple definition; thorough: both)", lsized.len() as u64, true);
+    let sizes: std::collections::BTreeSet<usize> = sweep.iter().map(|c| c.enc()).collect();
+    let (lo, hi) = (sizes.iter().next().copied().unwrap_or(0), sizes.iter().last().copied().unwrap_or(0));
+    let missing: Vec<usize> = (33..=300usize).filter(|t| !sizes.contains(t)).collect();
+    if !missing.is_empty() {
+        kit::ev::machinery(format!("C15: the encoded-size sweep is not contiguous from 33 to 300: missing {missing:?}"));
+    }
+    run.space(&format!("encoded-size sweep, both flows: mixed-width lists (per-range CBOR widths start {{1,2,3,5}} x length {{1,2,3,5,9}}, 1..12 ranges) whose exclusion array encodes to EVERY size from 33 to 300 bytes (and on up to {hi}) \
+                        (plus the single-range sizes from {lo}; ten reserved dummy ranges = 161 bytes); quick: fewest-range and most-range witness per size x format(6), +5000 reserve on jpeg; \
+                        thorough: one witness per (n, size) x format x (simple definition x reserve(2), rich definition)"), sweep.len() as u64, true);
+    run.extra("encoded_sizes_covered", json!({"min": lo, "max": hi, "distinct": sizes.len()}));
+    par::for_each(&lreal, |c| judge(run, c, run_case(c)));
+    par::for_each(&lsized, |c| judge(run, c, run_case(c)));
+    par::for_each(&sweep, |c| judge(run, c, run_case(c)));
+    for c in [&sweep[0], &sweep[sweep.len() / 2]] {
+        if let Ok(r) = run_case(c) {
+            run.sample(json!({"case": c.to_json(), "exclusions": r.ranges, "encoded_size_of_exclusion_array": c.enc(), "placeholder_len": r.placeholder, "signed_len": r.signed, "error": r.err}));
+        }
+        run.eval();
+    }
     STATS.get_or_init(Default::default).finish(run, "C15");
     for c in [&sized[0], &sized[sized.len() / 2], &sized[sized.len() - 1]] {
         if let Ok(r) = run_case(c) {
